@@ -336,6 +336,7 @@ package gorm
 //@   tags C14
 //@   requires held == 0
 //@   ensures mutex-free-on-return: held == 0
+//@   ensures evicted-statement-gets-a-closer: prepares == old(prepares) || prepErr == 0 ==> evicted - old(evicted) == spawned - old(spawned)
 
 //@ func (*PreparedStmtDB).Close
 //@   tags C14
